@@ -7,7 +7,7 @@ func f32(x float32) *float32 { return &x }
 // Configs are the shard configurations the drivers know by name.
 var Configs = map[string]Config{
 	"none": {Name: "none"},
-	"scalars": {Name: "scalars", Props: []Prop{
+	"scalars": {Name: "scalars", RareEmpty: true, Props: []Prop{
 		{Name: "i", Type: models.IndexTypeInteger},
 		{Name: "f", Type: models.IndexTypeFloat},
 		{Name: "s", Type: models.IndexTypeString, CS: false},
@@ -24,6 +24,23 @@ func init() {
 	e.Name = "scalars-empty"
 	e.EmptyStrings = true
 	Configs["scalars-empty"] = e
+	filt := []Prop{{Name: "i", Type: models.IndexTypeInteger}, {Name: "s", Type: models.IndexTypeString}}
+	for _, m := range []string{models.DistanceEuclidean, models.DistanceDot, models.DistanceCosine, models.DistanceHamming,
+		models.DistanceJaccard, models.DistanceHaversine} {
+		dim := 3
+		if m == models.DistanceHaversine {
+			dim = 2
+		}
+		if m == models.DistanceHamming || m == models.DistanceJaccard {
+			dim = 5
+		}
+		Configs["flat-"+m] = Config{Name: "flat-" + m, NoExtras: true, Props: append([]Prop{
+			{Name: "fl", Type: models.IndexTypeVectorFlat, Metric: m, Dim: dim}}, filt...)}
+		Configs["vamana-"+m] = Config{Name: "vamana-" + m, NoExtras: true, Props: append([]Prop{
+			{Name: "v", Type: models.IndexTypeVectorVamana, Metric: m, Dim: dim, SearchSize: 75, DegreeBound: 32, Alpha: 1.2}}, filt...)}
+	}
+	Configs["text"] = Config{Name: "text", NoExtras: true, Props: append([]Prop{
+		{Name: "t", Type: models.IndexTypeText}, {Name: "n.t", Type: models.IndexTypeText}}, filt...)}
 	Configs["kitchen"] = Config{Name: "kitchen", Props: []Prop{
 		{Name: "i", Type: models.IndexTypeInteger},
 		{Name: "f", Type: models.IndexTypeFloat},
